@@ -1073,7 +1073,12 @@ class DavSys:
                     self.violation("C15", "readback:%s:%s:%s" % (pk, since, "missing" if got is None else "different"), "property %s of %s was set to %r with status 200 but PROPFIND returns %r" % (pk, coll, val, got), {"op": op, "coll": coll})
             if not pa["exists"]:
                 continue
+            # a collection made by plain MKCOL has no recorded type: xandikos derives one from its members, and with the type the
+            # set of properties that exist; there only the values that were SET are protected (checked above)
+            untyped = m.get("kind") == "other"
             for pk in a["props"]:
+                if untyped and (pk == "resourcetype" or pk not in m["props"]):
+                    continue
                 if pk == "resourcetype":
                     if a["props"][pk] != pa["props"].get(pk):
                         self.violation("C15", "resourcetype-changed:%s" % kind, "resource type changed", {"op": op, "coll": coll})
